@@ -127,6 +127,7 @@ type Explorer struct {
 	modelOK bool
 	th      theory
 	thSet   bool
+	prefer  string // preferred solver key for this path ("" = by theory)
 	steps   int64
 	depth   int
 	covers  []string
@@ -182,6 +183,9 @@ func (w *worker) closeSolvers() {
 }
 
 func (ex *Explorer) primaryKey() string {
+	if ex.prefer != "" {
+		return ex.prefer
+	}
 	if ex.th == thINT {
 		return "z3-int"
 	}
@@ -190,10 +194,19 @@ func (ex *Explorer) primaryKey() string {
 
 // fallback solver order for assertion queries that come back unknown.
 func (ex *Explorer) fallbackKeys() []string {
+	var ks []string
 	if ex.th == thINT {
-		return []string{"cvc5-int", "z3new-int", "z3-bv"}
+		ks = []string{"z3-int", "cvc5-int", "z3new-int", "z3-bv"}
+	} else {
+		ks = []string{"z3-bv", "z3new-bv", "cvc5-bv", "z3-int"}
 	}
-	return []string{"z3new-bv", "cvc5-bv", "z3-int"}
+	var out []string
+	for _, k := range ks {
+		if k != ex.primaryKey() {
+			out = append(out, k)
+		}
+	}
+	return out
 }
 
 func (ex *Explorer) count(kind string) {
